@@ -94,7 +94,8 @@ def in_alpha(s):
 
 
 TYPES = {'int': int, 'str': str, 'bool': bool, 'float': float}
-WIT = {'int': [5, -1, 0], 'str': ['a', 'B', '', '1'], 'bool': [True, False], 'float': [1.5, -0.25]}
+# float witnesses include pairs that differ only beyond the 15th significant digit (doubles, replayed natively: the symbolic part treats floats as reals)
+WIT = {'int': [5, -1, 0], 'str': ['a', 'B', '', '1'], 'bool': [True, False], 'float': [1.5, -0.25, 0.1 + 0.2, 0.3, 1e15 + 0.25, 1e15 + 0.5]}
 
 
 def pair_obs(maxlen, timeout, known):
